@@ -7,6 +7,7 @@ import Driver.Views
 import Driver.Interp
 import Driver.Solve
 import Driver.Threads
+import Driver.Special
 /-! `adept_model <family>`: line protocol on stdin/stdout, one result line per input line.
     Every import of this file must stay free of Mathlib (the driver is linked natively). -/
 open Adept Adept.Drv
@@ -21,4 +22,5 @@ def main (args : List String) : IO UInt32 := do
   | ["interp"] => runFamily InterpDrv.step (); return 0
   | ["solve"] => runFamily SolveDrv.step (); return 0
   | ["threads"] => runFamily ThreadsDrv.step {}; return 0
+  | ["special"] => runFamily SpecialDrv.step (); return 0
   | _ => IO.eprintln "usage: adept_model <family>"; return 2
